@@ -30,6 +30,7 @@ TOKEN_POOLS = [
     ["a", "b", "c", "d"],
     ["x", "", "yy"],  # multi-char and empty-string tokens (no str form)
     ["a", "A", "aa"],
+    [0, 1, "1", None],  # non-string tokens; 1 and "1" differ, None is a token like any other
 ]
 CONST_VALUES = [None, 0, False, "", 1, True]
 ITER_KINDS = ["items", "prefixes", "values", "iter"]
@@ -108,7 +109,7 @@ def generate(seed, run, tier):
     if fault_class:
         enabled = [k for k in FAULT_KINDS if crng.random() < 0.6]
     fault_rate = crng.choice([0.02, 0.05, 0.1, 0.15]) if enabled else 0.0
-    str_ok = all(len(t) == 1 for t in alphabet)
+    str_ok = all(isinstance(t, str) and len(t) == 1 for t in alphabet)
     forms = ["list", "tuple", "gen"] + (["str"] if str_ok else [])
     forms = [f for f in forms if crng.random() < 0.7] or ["list"]
     # observation schedule (swarm): a full sweep after every mutation would
@@ -268,7 +269,7 @@ def model_lmpv(model, q):
 
 
 def state_text(model):
-    return repr(sorted((k, repr(v)) for k, v in model.items()))
+    return repr(sorted((repr(k), repr(v)) for k, v in model.items()))
 
 
 class Run(object):
@@ -353,7 +354,7 @@ class Run(object):
                 self.fail("iteration", op, sorted(r(x) for x in got), sorted(r((list(k), v)) for k, v in model.items()), {"kind": kind})
         elif kind == "prefixes":
             keys = [tuple(p) for p in got]
-            if sorted(keys) != sorted(model):
+            if sorted(keys, key=repr) != sorted(model, key=repr):
                 self.fail("iteration", op, sorted(r(list(k)) for k in keys), sorted(r(list(k)) for k in model), {"kind": kind})
         else:
             a = sorted(r(v) for v in got)
